@@ -38,6 +38,7 @@ def demo_copy_cmds(seed, wt):
             dest = m2.group(1) if m2 else None
         if dest is None:
             continue
+        dest = dest.rstrip(".,;:")
         if dest.endswith(".go"):
             dest = os.path.dirname(dest)
         d = os.path.join(wt, dest)
@@ -78,6 +79,13 @@ def main():
     confirmed = all(meta.get(k) for k in ("patch_applies", "builds", "suite_passes_with_patch",
                                            "demo_fails_with_patch", "demo_passes_without_patch"))
     meta["confirmed"] = confirmed
+    dest = os.path.join(VERIF, "seeded", name)
+    if "--confirm-only" in sys.argv:
+        old = json.load(open(os.path.join(dest, "meta.json")))
+        old.update({k: meta[k] for k in meta if k not in ("property", "seed")})
+        json.dump(old, open(os.path.join(dest, "meta.json"), "w"), indent=1)
+        print(json.dumps({k: old.get(k) for k in ("seed", "property", "confirmed", "detected")}))
+        return
     # run the check against the defect
     rc, out = sh("git -C /repo status --porcelain")
     if out.strip():
